@@ -479,6 +479,18 @@ class PrefixSum:
         return out
 
 
+def same_array(a, b, name="q"):
+    """z3 goal: the two arrays have the same shape and the same element at a generic position (a value comparison -- contracts must not
+    demand object identity of arrays: a refactoring may pass a copy)."""
+    if not (isinstance(a, I.Arr) and isinstance(b, I.Arr)) or a.ndim != b.ndim:
+        return z3.BoolVal(False)
+    idx = [z3.Int(f"{name}_{k}") for k in range(a.ndim)]
+    rng = [z3.And(i >= 0, i < T.zi(d)) for i, d in zip(idx, a.shape)]
+    va, vb = a.fn(*idx), b.fn(*idx)
+    eq = T.compare("eq", va, vb)
+    return z3.And(*[T.zi(x) == T.zi(y) for x, y in zip(a.shape, b.shape)], z3.Implies(z3.And(*rng) if rng else z3.BoolVal(True), T.zb(eq) if T.is_sym(eq) else z3.BoolVal(bool(eq))))
+
+
 def site_of(term):
     """The ReductionSite behind a reduction UF application (or None)."""
     from . import npmodel as M
